@@ -1134,9 +1134,9 @@ def stage_r_env(rep, rng, n):
 
 
 def stage_probe_env_names(rep):
-    """Candidate finding C01-env-name-not-identifier (the complement of the guard name_ok of C01_env_global/local, witness
+    """Domain boundary (not a finding: C01 quantifies over environment values, not names): the complement of the guard name_ok of C01_env_global/local, witness
     C01_env_name_refuted): environment names that are not sh identifiers (and OPTIND with a non-number) run through the real
-    writer, the real make and /bin/sh. Recorded in the evidence, never reported as a violation here (status: candidate)."""
+    writer, the real make and /bin/sh. Recorded in the evidence, never reported as a violation."""
     from io import StringIO
     from bfg9000.backends.make.syntax import Makefile
     from bfg9000.shell import posix as pshell
@@ -1154,7 +1154,7 @@ def stage_probe_env_names(rep):
             res['%s=%s %s' % (name, value, form)] = 'delivered' if ok else 'NOT delivered (make exit %d: %s)' % (
                 rc, out.strip().split('\n')[-1][-80:] if out.strip() else '')
             rep.case('envname:%s:%s' % (name, form), True)
-    rep.stage('probe:environment names outside the guard (candidate finding)', **res)
+    rep.stage('probe:environment names outside the guard (domain boundary)', **res)
     if res.get('GOOD_1=x global_env') != 'delivered' or res.get('GOOD_1=x local_env') != 'delivered' or \
             res.get('OPTIND=3 global_env') != 'delivered':
         rep.fail('environment-name probe: the control case is not delivered: %r' % (res,), {'obligation': 'probe:env names', 'result': res},
